@@ -26,6 +26,9 @@ from .facts import callee_of, resolved
 
 MAX_DEPTH = 40
 
+# global registry of callee descriptors so that call terms are meaningful across Sym instances
+CALLINFO = []
+
 
 class Sym:
     def __init__(self, fn, fb=None, body=None):
@@ -37,7 +40,7 @@ class Sym:
         self.argc = self.body["argc"]
         self.defs = {}     # local -> list of ('assign', bb, si, rv) | ('call', bb, term)
         self.pdefs = {}    # local -> list of (projection, bb, si, rv|call)
-        self.callinfo = []
+        self.callinfo = CALLINFO
         self._callid = {}
         self._memo = {}
         for bi, b in enumerate(self.blocks):
@@ -105,8 +108,8 @@ class Sym:
     def _cid(self, bb, c):
         if bb in self._callid:
             return self._callid[bb]
-        self.callinfo.append(c)
-        self._callid[bb] = len(self.callinfo) - 1
+        CALLINFO.append(c)
+        self._callid[bb] = len(CALLINFO) - 1
         return self._callid[bb]
 
     def operand(self, op, depth=0, stack=()):
@@ -210,7 +213,18 @@ class Sym:
     # ------------------------------------------------------------------ helpers
     def info(self, t):
         """Callee descriptor for a ('call', ...) term."""
-        return self.callinfo[t[4]]
+        return CALLINFO[t[4]]
+
+    def source_defs(self, l, limit=8):
+        """Definitions of local l after following plain copies/moves of other locals."""
+        for _ in range(limit):
+            ds = self.defs.get(l, [])
+            if len(ds) == 1 and ds[0][0] == "assign" and ds[0][3]["k"] == "use" \
+                    and ds[0][3]["op"]["k"] in ("copy", "move") and not ds[0][3]["op"]["pl"]["p"]:
+                l = ds[0][3]["op"]["pl"]["l"]
+                continue
+            return l, ds
+        return l, self.defs.get(l, [])
 
     def call_at(self, bb):
         t = self.blocks[bb]["term"]
